@@ -20,6 +20,7 @@ from twosigma.memento import memento as _memento
 from twosigma.memento import runner as _runner
 from twosigma.memento import runner_local as _runner_local
 from twosigma.memento import storage_base as _storage_base
+from twosigma.memento import storage_filesystem as _storage_filesystem
 from twosigma.memento import storage_memory as _storage_memory
 from twosigma.memento.reference import FunctionReferenceWithArgHash
 from twosigma.memento.storage_base import MemoryCache
@@ -52,6 +53,12 @@ def _install_twins():
                                            "forget_call", "forget_function", "forget_everything"), ()),
         (m.StorageBackend, ("get_memento",), ()),
         (_storage_memory.MemoryStorageBackend, None, ("__init__", "to_dict")),
+        # the write path down to the filesystem data source (two calls may write one key: a shared override key)
+        (_storage_base.Codec, ("store",), ()),
+        (_storage_base.Codec.BlobStrategy, ("store",), ()),
+        (_storage_base.DataSourceMetadataSource, ("put_memento",), ()),
+        (_storage_filesystem._FilesystemDataSource, ("output", "_write_non_versioned_link", "output_metadata", "delete_nonversioned_key",
+                                                     "_delete_non_versioned_link"), ()),
         (_call_stack.CallStack, None, ("__init__",)),
         (_base.MementoFunctionBase, ("call", "__call__"), ()),
         (_memento.MementoFunction, ("call", "_filter_call"), ()),
@@ -170,13 +177,21 @@ SRC = (
     "    _trace.append(('g', x))\n"
     "    return 'g' * 100 + str(x)\n"
     "@m.memento_function(version='1')\n"
+    "def ko1(x):\n"
+    "    _trace.append(('ko1', x))\n"
+    "    return KeyOverrideResult('A' * 60 + str(x), 'shared/override-key')\n"
+    "@m.memento_function(version='1')\n"
+    "def ko2(x):\n"
+    "    _trace.append(('ko2', x))\n"
+    "    return KeyOverrideResult('B' * 40 + str(x), 'shared/override-key')\n"
+    "@m.memento_function(version='1')\n"
     "def boom(x):\n"
     "    _trace.append(('boom', x))\n"
     "    raise KeyError('boom%s' % x)\n"
 )
 STORES = ["memory", "fs", "fs+cache:1", "fs+cache:small"]
 SMALL_MB = 330 / 1048576.0  # budget of 330 bytes: one ~150-byte value plus a few 48-byte mementos fit, two values do not
-KEYS = ["same-call", "same-fn-different-args", "different-fns", "same-failing-call"]
+KEYS = ["same-call", "same-fn-different-args", "different-fns", "same-failing-call", "different-fns-writing-one-override-key"]
 STATES = ["cold", "warm-store-cold-cache", "warm"]
 
 
@@ -193,6 +208,8 @@ def _calls(prog, key, nthreads):
         return [(prog.f, i + 1) for i in range(nthreads)]
     if k == "different-fns":
         return [(prog.f, 1), (prog.g, 1), (prog.f, 2)][:nthreads]
+    if k == "different-fns-writing-one-override-key":
+        return [(prog.ko1, 1), (prog.ko2, 1), (prog.ko1, 2)][:nthreads]
     return [(prog.boom, 1)] * nthreads
 
 
@@ -206,6 +223,9 @@ class _KeepProgram:
     def get(cls):
         if cls.prog is None:
             cls.prog = Program("vpc09")
+            from twosigma.memento.result import KeyOverrideResult
+
+            cls.prog.mod.__dict__["KeyOverrideResult"] = KeyOverrideResult
             cls.prog.exec(SRC)
             cls.prog.close = lambda: None
         cls.prog.trace.clear()
@@ -235,7 +255,8 @@ def _expected(calls):
     out = []
     for fn, x in calls:
         try:
-            out.append(("ok", fn.fn(x)))
+            v = fn.fn(x)
+            out.append(("ok", getattr(v, "result", v) if type(v).__name__ == "KeyOverrideResult" else v))
         except Exception as e:  # noqa
             out.append(("exc", (type(e), str(e.args[0]) if e.args else "")))
     return out
@@ -324,6 +345,13 @@ def _run_scenario(mode, store, key, state, schedule, nthreads=2, tag=""):
         if cache is not None:
             cs = cache_state(cache)
             check(tag + "cache-accounting-is-what-a-sequential-execution-leaves", cs in ref["cache_states"], lambda: (cs, ref["cache_states"]))
+        # a result, once referenced by a memento, keeps its bytes (also when another call wrote the same override key meanwhile)
+        for (fn, x), w_ in zip(calls, want):
+            if w_[0] == "ok":
+                mem_ = fn.memento(x)
+                check(tag + "memento-exists-afterwards", mem_ is not None, (fn.__name__, x))
+                got_ = sb.storage().read_result(mem_)
+                check(tag + "stored-result-of-each-call-is-its-own", got_ == w_[1], lambda: (fn.__name__, x, repr(got_)[:80], repr(w_[1])[:80]))
         # and everything is memoized now: a further call of each runs no body
         n0 = len(prog.trace)
         for fn, x in dict.fromkeys(calls):
@@ -343,6 +371,8 @@ def _run_scenario(mode, store, key, state, schedule, nthreads=2, tag=""):
 def _valid(store, key, state):
     if STORES[store] in ("memory", "fs") and STATES[state] == "warm-store-cold-cache":
         return False  # no cache: same as warm
+    if KEYS[key] == "different-fns-writing-one-override-key" and (STORES[store] == "memory" or STATES[state] != "cold"):
+        return False  # concurrent WRITES to one key: filesystem stores, cold
     return True
 
 
